@@ -22,6 +22,7 @@ Extends the machinery of stl.py (read its docstring first) without changing it:
 The block objects use the hooks stl.block_text / stl.resolve_block already look for (`ptr_text`, `ptr_resolve`), so
 assembly, packing into images, image emission, parallel coqc and the real-engine runner are the ones of stl.py.
 """
+import atexit
 import dataclasses
 import json
 import math
@@ -559,8 +560,11 @@ def run_property(ctx, cfg):
         cfg = dataclasses.replace(cfg, table=[e for e in cfg.table if re.search(only, e['name'])])
     prop = ctx.prop
     fw.static_proofs(ctx, [f'Properties/{prop}.v'])
-    prefixes = [f'Img_{prop}_', f'Img_{prop}s_', f'StlP_{prop}_', f'StlT_{prop}_', f'StlTie_{prop}_', f'StlD_{prop}_']
-    stl.clean_gen(prefixes)
+    # generated files carry the pid of this run in their names: concurrent runs of the same check cannot clobber each other
+    tag = f'{prop}p{os.getpid()}'
+    stl.clean_stale_gen()
+    prefixes = stl.gen_prefixes(tag)
+    atexit.register(stl.clean_gen, prefixes)
     dc = stl.DistinctCount()
     ctx._distinct = dc
     cov = ctx.coverage
@@ -580,8 +584,14 @@ def run_property(ctx, cfg):
 
     # ---- blocks and images
     thm_blocks, smp_blocks = plan_blocks(ctx, cfg)
-    images = stl.assemble_blocks(ctx, cfg, thm_blocks, prop)
-    smp_images = stl.assemble_blocks(ctx, cfg, smp_blocks, prop + 's')
+    try:
+        images = stl.assemble_blocks(ctx, cfg, thm_blocks, tag)
+        smp_images = stl.assemble_blocks(ctx, cfg, smp_blocks, tag + 's', presize=False)
+    except RuntimeError as e:
+        # not even `<startup> ; stl.loop` assembles: nothing can be regenerated, every instance theorem is void
+        ctx.broken_tie(f'{prop}: the harness start-up program does not assemble with the current assembler/stl', str(e))
+        cov['obligations'] += len(thm_blocks)
+        return
     for b in thm_blocks + smp_blocks:
         if b.asm_error:
             ctx.broken_tie(f'assembly of harness block {b.title} (w={b.w})', b.asm_error)
@@ -764,7 +774,7 @@ def run_property(ctx, cfg):
     cov['estimated_machine_steps'] = total_steps
     cov['images'] = [{'name': im['name'], 'w': im['w'], 'words': im['res']['nwords'], 'blocks': len(im['blocks'])} for im in images]
     cov['sampled_only'] = sorted({f'{b.title} w={b.w}' for b in smp_blocks if not b.asm_error})
-    cov['checker_cmd'] += f' ; coqc (parallel, {fw.NCPU} jobs) on coq/Gen/Img_{prop}_*.v StlP_{prop}_*.v StlT_{prop}_*.v StlTie_{prop}_*.v'
+    cov['checker_cmd'] += f' ; coqc (parallel, {fw.NCPU} jobs) on coq/Gen/Img_{tag}_*.v StlP_{tag}_*.v StlT_{tag}_*.v StlTie_{tag}_*.v'
     cov['timing_s'] = {'assembly': round(t_asm - t_start, 1), 'engines': round(t_eng - t_asm, 1),
                        'coq_pieces': round(t_pieces - t_eng, 1), 'rest': round(t_end - t_pieces, 1)}
     cov['cpu_s'] = round(sum(os.times()[:4]), 1)
@@ -784,7 +794,9 @@ def run_property(ctx, cfg):
         'block-local temporaries declared by the macros themselves, word 0 bit 0, the IO word bits 0-1, the input cell and (buffer helpers) '
         'the hex.pointers.* globals are scratch',
         'the run starts from the assembled image: every theorem is about THIS image (w, layout), not about all placements']
-    if not stl.fw_keep_gen():
+    if stl.fw_keep_gen():
+        atexit.unregister(stl.clean_gen)
+    else:
         stl.clean_gen(prefixes)
 
 
